@@ -80,6 +80,10 @@ type fnVC struct {
 	safety  []string
 	curBlk  *ssa.BasicBlock
 	spawned []*ssa.Go
+	ifaceNames []string
+	instrTag map[ssa.Instruction]string
+	curInstr ssa.Instruction
+	ordinal map[ssa.Instruction]int // static per-kind ordinal (source order), for stable obligation names
 }
 
 type dbgRef struct {
@@ -264,9 +268,13 @@ func (v *fnVC) safetyOb(what string, p token.Pos, goal *T) {
 		v.e.assume(tImp(v.reach[v.curBlk.Index], goal))
 		return
 	}
-	n := v.callOrd["safety:"+what]
-	v.callOrd["safety:"+what] = n + 1
-	name := fmt.Sprintf("safety:%s#%d", what, n)
+	name := fmt.Sprintf("safety:%s@%s", what, v.instrTag[v.curInstr])
+	if n := v.callOrd[name]; n > 0 {
+		v.callOrd[name] = n + 1
+		name = fmt.Sprintf("%s.%d", name, n)
+	} else {
+		v.callOrd[name] = 1
+	}
 	v.oblige("safety", name, v.safety, what+" cannot fault", v.pos(p), v.reach[v.curBlk.Index], goal, nil)
 }
 
@@ -293,7 +301,33 @@ func (w *World) verifyFunc(fn *ssa.Function, ct *Contract, safetyProps []string)
 	if len(fn.Blocks) == 0 {
 		return v, fmt.Errorf("%s has no body", v.shortName())
 	}
+	if ct != nil && ct.Implements != "" {
+		ict := w.specs.Contracts[ct.Implements]
+		if ict == nil {
+			return v, fmt.Errorf("%s implements %s, which has no contract", v.shortName(), ct.Implements)
+		}
+		// behavioural subtyping: the method is verified against the interface's contract
+		// (plus its own extra clauses); interface parameter names are bound by position.
+		eff := *ct
+		eff.Requires = append(append([]*Clause{}, ict.Requires...), ct.Requires...)
+		eff.Ensures = append(append([]*Clause{}, ict.Ensures...), ct.Ensures...)
+		eff.Lets = append(append([]letDef{}, ict.Lets...), ct.Lets...)
+		eff.Props = unionProps(ct.Props, ict.Props)
+		if !ct.HasAsg {
+			eff.HasAsg, eff.Assigns = ict.HasAsg, ict.Assigns
+		}
+		eff.Fresh = eff.Fresh || ict.Fresh
+		ct = &eff
+		v.ct = ct
+		v.ifaceNames = ict.ParamNm
+	}
+	if ct != nil {
+		for _, r := range ct.Reveal {
+			v.e.reveal[r] = true
+		}
+	}
 	v.computeOrder()
+	v.computeOrdinals()
 	v.entry = v.e.newState()
 	e := v.e
 	e.assume(mk(sapp(">", v.entry.next().S, "0"), sBool))
@@ -306,6 +340,13 @@ func (w *World) verifyFunc(fn *ssa.Function, ct *Contract, safetyProps []string)
 		t := v.inputConst("fv$"+p.Name(), p.Type())
 		v.vals[p] = t
 		v.params[p.Name()] = t
+	}
+	for k, nm := range v.ifaceNames {
+		if k < len(fn.Params) {
+			if _, clash := v.params[nm]; !clash {
+				v.params[nm] = v.vals[fn.Params[k]]
+			}
+		}
 	}
 	// requires
 	if ct != nil {
@@ -417,6 +458,7 @@ func (v *fnVC) block(b *ssa.BasicBlock) {
 		st = v.loopHeader(b, st)
 	}
 	for _, in := range b.Instrs {
+		v.curInstr = in
 		v.instr(b, in, st)
 	}
 	v.exit[b.Index] = st
@@ -655,8 +697,7 @@ func (v *fnVC) havocWrites(in ssa.Instruction, st *State, pre *State) {
 			hv(elemHeap(es), arrSort(sRef, arrSort(sI64, es)))
 		}
 	case ssa.CallInstruction:
-		// conservative: everything
-		st.havocAll()
+		v.havocCallWrites(i, st)
 	case *ssa.Next:
 		hv("iter$"+in.(*ssa.Next).Iter.Name(), sInt)
 	}
@@ -726,13 +767,198 @@ func (v *fnVC) modelTerms() []string {
 			for i := 0; i < 24; i++ {
 				out = append(out, sapp("sat", t.S, bvLit(int64(i), 64)))
 			}
-			if v.e.declSeen["spec$isDigits"] {
-				out = append(out, sapp("spec$isDigits", t.S))
-			}
-			if v.e.declSeen["spec$decval"] {
-				out = append(out, sapp("spec$decval", t.S))
+			tail := sapp("ssub", t.S, bvLit(1, 64), sapp("slen", t.S))
+			for _, fn := range []string{"spec$isDigits", "spec$dec64", "spec$decOverflow"} {
+				if v.e.declSeen[fn] {
+					out = append(out, sapp(fn, t.S), sapp(fn, tail))
+				}
 			}
 		}
 	}
 	return out
+}
+
+// computeOrdinals numbers returns, and call sites per callee, in block/instruction order.
+func (v *fnVC) computeOrdinals() {
+	v.ordinal = map[ssa.Instruction]int{}
+	v.instrTag = map[ssa.Instruction]string{}
+	count := map[string]int{}
+	for _, b := range v.fn.Blocks {
+		for _, in := range b.Instrs {
+			tn := strings.TrimPrefix(fmt.Sprintf("%T", in), "*ssa.")
+			v.instrTag[in] = fmt.Sprintf("%s%d", tn, count["T:"+tn])
+			count["T:"+tn]++
+			key := ""
+			switch i := in.(type) {
+			case *ssa.Return:
+				key = "ret"
+			case ssa.CallInstruction:
+				c := i.Common()
+				switch {
+				case c.IsInvoke():
+					key = "call:" + ifaceKey(c.Value.Type(), c.Method.Name())
+				default:
+					switch f := c.Value.(type) {
+					case *ssa.Function:
+						key = "call:" + funcKey(f)
+					case *ssa.MakeClosure:
+						key = "call:" + funcKey(f.Fn.(*ssa.Function))
+					case *ssa.Builtin:
+						key = ""
+					default:
+						key = "call:fnvalue"
+					}
+				}
+				if _, isGo := in.(*ssa.Go); isGo && key != "" {
+					key = "go:" + key
+				}
+			}
+			if key != "" {
+				v.ordinal[in] = count[key]
+				count[key]++
+			}
+		}
+	}
+}
+
+// havocCallWrites forgets, at the granularity of whole heaps, everything a call
+// may write according to the callee's contract (no contract: everything).
+func (v *fnVC) havocCallWrites(in ssa.CallInstruction, st *State) {
+	c := in.Common()
+	var ct *Contract
+	var names []string
+	var ptypes []types.Type
+	switch {
+	case c.IsInvoke():
+		ct = v.w.specs.Contracts[ifaceKey(c.Value.Type(), c.Method.Name())]
+		names = append(names, "recv")
+		ptypes = append(ptypes, c.Value.Type())
+		msig := c.Method.Type().(*types.Signature)
+		for k := 0; k < msig.Params().Len(); k++ {
+			names = append(names, paramName(msig.Params().At(k), k))
+			ptypes = append(ptypes, msig.Params().At(k).Type())
+		}
+	default:
+		var fn *ssa.Function
+		switch f := c.Value.(type) {
+		case *ssa.Builtin:
+			switch f.Name() {
+			case "len", "cap", "min", "max", "print", "println", "close":
+				return
+			case "append", "copy":
+				if sl, ok := c.Args[0].Type().Underlying().(*types.Slice); ok {
+					es := v.e.sortOf(sl.Elem())
+					st.set(elemHeap(es), v.e.freshConst("Hl$"+elemHeap(es), arrSort(sRef, arrSort(sI64, es))))
+					st.set(allocHeap, v.e.freshConst("Hl$next", sInt))
+					return
+				}
+			case "delete":
+				if mt, ok := c.Args[0].Type().Underlying().(*types.Map); ok {
+					v.havocMap(mt, func(name string, so *Sort) { st.set(name, v.e.freshConst("Hl$"+name, so)) })
+					return
+				}
+			}
+			st.havocAll()
+			return
+		case *ssa.Function:
+			fn = f
+		case *ssa.MakeClosure:
+			fn = f.Fn.(*ssa.Function)
+		}
+		if fn == nil {
+			// call through a function value: an iterator call with a yield closure writes what the closure writes
+			if yc := yieldClosureArg(c); yc != nil {
+				v.havocFuncBody(yc.Fn.(*ssa.Function), st)
+				return
+			}
+			st.havocAll()
+			return
+		}
+		ct = v.w.specs.Contracts[funcKey(fn)]
+		if len(fn.Params) > 0 || len(fn.FreeVars) > 0 {
+			for _, p := range fn.FreeVars {
+				names = append(names, p.Name())
+				ptypes = append(ptypes, p.Type())
+			}
+			for _, p := range fn.Params {
+				names = append(names, p.Name())
+				ptypes = append(ptypes, p.Type())
+			}
+		} else {
+			sig := c.Signature()
+			if r := sig.Recv(); r != nil {
+				names = append(names, "recv")
+				ptypes = append(ptypes, r.Type())
+			}
+			for k := 0; k < sig.Params().Len(); k++ {
+				names = append(names, paramName(sig.Params().At(k), k))
+				ptypes = append(ptypes, sig.Params().At(k).Type())
+			}
+		}
+	}
+	if ct == nil || !ct.HasAsg || containsStr(ct.Assigns, "*") {
+		st.havocAll()
+		return
+	}
+	if len(ct.ParamNm) > 0 {
+		names = ct.ParamNm
+	}
+	// evaluate the assigns locations on dummy arguments in a scratch state and
+	// havoc every heap they touch
+	scratch := v.e.newState()
+	scratch.havocAll()
+	x := &Ex{enc: v.e, w: v.w, pkg: v.fn.Pkg.Pkg, vars: map[string]*T{}, lets: map[string]string{}, cur: scratch, old: scratch}
+	for k, n := range names {
+		if k < len(ptypes) {
+			x.vars[n] = v.e.freshConst("dummy", v.e.sortOf(ptypes[k])).withGo(ptypes[k])
+		}
+	}
+	for _, l := range ct.Lets {
+		x.lets[l.Name] = l.Expr
+	}
+	saveCt := v.ct
+	v.ct = nil // no frame obligations from the scratch evaluation
+	func() {
+		defer func() {
+			if r := recover(); r != nil {
+				if _, ok := r.(specErr); ok {
+					st.havocAll()
+					scratch.m = map[string]*T{}
+					return
+				}
+				panic(r)
+			}
+		}()
+		for _, loc := range ct.Assigns {
+			v.havocLoc(x, loc, scratch, in.Pos())
+		}
+	}()
+	v.ct = saveCt
+	for name, t := range scratch.m {
+		st.set(name, v.e.freshConst("Hl$"+name, t.Sort))
+	}
+	st.set(allocHeap, v.e.freshConst("Hl$next", sInt))
+}
+
+func yieldClosureArg(c *ssa.CallCommon) *ssa.MakeClosure {
+	for _, a := range c.Args {
+		if mc, ok := a.(*ssa.MakeClosure); ok {
+			if f, ok := mc.Fn.(*ssa.Function); ok && f.Synthetic == "range-over-func yield" {
+				return mc
+			}
+		}
+	}
+	return nil
+}
+
+// havocFuncBody forgets every heap the body of fn (a yield closure) may write.
+func (v *fnVC) havocFuncBody(fn *ssa.Function, st *State) {
+	for _, b := range fn.Blocks {
+		for _, in := range b.Instrs {
+			v.havocWrites(in, st, nil)
+		}
+	}
+	for _, a := range fn.AnonFuncs {
+		v.havocFuncBody(a, st)
+	}
 }
